@@ -36,3 +36,10 @@ func VerifDupSortEncode(d *snapshot.DBI) (*snapshot.DBI, error) {
 func VerifDupSortDecode(d *snapshot.DBI) (*snapshot.DBI, error) {
 	return dupSortHackDecode(d)
 }
+
+// VerifSetHostname replaces the host name that instances without a configured
+// name fall back to, and returns the previous one.
+func VerifSetHostname(h string) (old string) {
+	old, hostname = hostname, h
+	return old
+}
